@@ -26,6 +26,8 @@ import (
 // C09 — per-request state: stage results are reused; concurrent requests do not interfere.
 //   seq   one request, a history of accessor calls threading the returned request value; observables:
 //         per call (result code, same request value returned?), final effect counters
+//   multi 2-3 requests to the same handler whose accessor calls are interleaved in one goroutine (a schedule), some of
+//         them served completely in between; observables per request as in seq + every bound value is the request's own
 //   conc  N concurrent requests through the full handler, each carrying its own id/body/credential;
 //         observable: every handler saw exactly its own request's values (race detector on)
 
@@ -42,6 +44,8 @@ type c09In struct {
 	N       int    `json:"n,omitempty"`     // conc: number of goroutines
 	Procs   int    `json:"procs,omitempty"` // conc: GOMAXPROCS is not changed; kept for the record
 	ConcSeed int64 `json:"conc_seed,omitempty"`
+	Reqs    []c09In  `json:"reqs,omitempty"`  // multi: the requests (their own Ops are ignored)
+	Sched   [][2]int `json:"sched,omitempty"` // multi: (request index, op) in execution order
 }
 
 type c09Step struct {
@@ -58,6 +62,11 @@ type c09Obs struct {
 	Authn    int       `json:"authn"`
 	Authz    int       `json:"authz"`
 	Binds    int       `json:"binds"`
+	Multi    [][]c09Step `json:"multi,omitempty"`    // multi: per request, the observed calls
+	Statics  []string  `json:"statics,omitempty"`
+	SoloOK   bool      `json:"solo_ok,omitempty"`         // multi: each request observed what it observes alone on a fresh handler
+	OwnOK    bool      `json:"own_ok"`                 // every bound value / principal seen belonged to the request at hand
+	Leaks    []string  `json:"leaks,omitempty"`
 	ConcOK   bool      `json:"conc_ok,omitempty"`
 	ConcBad  []string  `json:"conc_bad,omitempty"`
 }
@@ -84,18 +93,37 @@ func (c09) Decode(raw json.RawMessage) (any, error) {
 type c09Counters struct{ lookups, authn, authz, binds int64 }
 
 var c09Cnt c09Counters
+var c09Quiet int64 // set while a fresh copy is served by the whole handler (op 7): its effects are not the threaded request's
+
+func c09Count(p *int64) {
+	if atomic.LoadInt64(&c09Quiet) == 0 {
+		atomic.AddInt64(p, 1)
+	}
+}
 
 type c09Router struct{ inner middleware.Router }
 
 func (r c09Router) Lookup(method, path string) (*middleware.MatchedRoute, bool) {
-	atomic.AddInt64(&c09Cnt.lookups, 1)
+	c09Count(&c09Cnt.lookups)
 	return r.inner.Lookup(method, path)
 }
 func (r c09Router) OtherMethods(method, path string) []string { return r.inner.OtherMethods(method, path) }
 
 type c09API struct {
-	ctx     *middleware.Context
-	handler http.Handler
+	ctx         *middleware.Context
+	handler     http.Handler
+	routeOffers []string // the secured route's produces in the order this context really uses (a map order in the analyzer)
+}
+
+var c09LeakMu sync.Mutex
+var c09Leaks []string
+
+func c09Leak(format string, args ...interface{}) {
+	c09LeakMu.Lock()
+	if len(c09Leaks) < 8 {
+		c09Leaks = append(c09Leaks, fmt.Sprintf(format, args...))
+	}
+	c09LeakMu.Unlock()
 }
 
 var c09APIs = map[string]*c09API{}
@@ -106,7 +134,7 @@ func c09Spec(anon bool) string {
 	if anon {
 		sec = `[{"key":[]},{}]`
 	}
-	return `{"swagger":"2.0","info":{"title":"t","version":"1"},"consumes":["application/json"],"produces":["application/json"],
+	return `{"swagger":"2.0","info":{"title":"t","version":"1"},"consumes":["application/json"],"produces":["application/json","text/plain"],
 "securityDefinitions":{"key":{"type":"apiKey","in":"header","name":"X-Key"}},
 "paths":{"/items/{id}":{"post":{"security":` + sec + `,"parameters":[{"name":"id","in":"path","type":"string","required":true},
 {"name":"body","in":"body","required":true,"schema":{"type":"object"}}],"responses":{"200":{"description":"ok"}}}},
@@ -120,13 +148,20 @@ func c09Get(anon bool, authz bool) *c09API {
 	if a, ok := c09APIs[key]; ok {
 		return a
 	}
+	a := c09Build(anon, authz)
+	c09APIs[key] = a
+	return a
+}
+
+// c09Build makes a fresh handler instance (nothing any earlier request could have touched).
+func c09Build(anon bool, authz bool) *c09API {
 	spec, err := loads.Analyzed(json.RawMessage(c09Spec(anon)), "")
 	if err != nil {
 		panic(err)
 	}
 	api := untyped.NewAPI(spec)
 	api.RegisterConsumer("application/json", runtime.ConsumerFunc(func(r io.Reader, data interface{}) error {
-		atomic.AddInt64(&c09Cnt.binds, 1)
+		c09Count(&c09Cnt.binds)
 		return runtime.JSONConsumer().Consume(r, data)
 	}))
 	keyAuth := security.APIKeyAuth("X-Key", "header", func(tok string) (interface{}, error) {
@@ -136,13 +171,16 @@ func c09Get(anon bool, authz bool) *c09API {
 		return nil, errors.Unauthenticated("key")
 	})
 	api.RegisterAuth("key", runtime.AuthenticatorFunc(func(params interface{}) (bool, interface{}, error) {
-		atomic.AddInt64(&c09Cnt.authn, 1) // every consultation of the scheme's authenticator
+		c09Count(&c09Cnt.authn) // every consultation of the scheme's authenticator
 		c09Rendezvous()
 		return keyAuth.Authenticate(params)
 	}))
 	if authz {
-		api.RegisterAuthorizer(runtime.AuthorizerFunc(func(r *http.Request, _ interface{}) error {
-			atomic.AddInt64(&c09Cnt.authz, 1)
+		api.RegisterAuthorizer(runtime.AuthorizerFunc(func(r *http.Request, principal interface{}) error {
+			c09Count(&c09Cnt.authz)
+			if p, ok := principal.(string); ok && p != "user:"+r.Header.Get("X-Key") {
+				c09Leak("authorizer: request with key %q was given principal %q", r.Header.Get("X-Key"), p)
+			}
 			if r.Header.Get("X-Authz") == "deny" {
 				return fmt.Errorf("denied")
 			}
@@ -156,11 +194,14 @@ func c09Get(anon bool, authz bool) *c09API {
 	api.RegisterOperation("get", "/open", runtime.OperationHandlerFunc(func(params interface{}) (interface{}, error) {
 		return map[string]interface{}{"open": true}, nil
 	}))
+	api.RegisterProducer("text/plain", runtime.JSONProducer()) // the handler answers maps; only the negotiated type matters here
 	ctx := middleware.NewContext(spec, api, nil)
 	ctx.VerifWrapRouter(func(r middleware.Router) middleware.Router { return c09Router{r} })
 	a := &c09API{ctx: ctx}
 	a.handler = ctx.APIHandler(nil)
-	c09APIs[key] = a
+	if mr, ok := ctx.LookupRoute(httptest.NewRequest("POST", "/items/probe", nil)); ok {
+		a.routeOffers = append([]string(nil), mr.Produces...)
+	}
 	return a
 }
 
@@ -212,7 +253,9 @@ func c09Request(in c09In, rid string) *http.Request {
 	case "png":
 		req.Header.Set("Accept", "image/png")
 	case "any":
-		req.Header.Set("Accept", "*/*;q=0.5, text/plain")
+		req.Header.Set("Accept", "*/*;q=0.5, image/gif")
+	case "star":
+		req.Header.Set("Accept", "*/*")
 	}
 	switch in.Key {
 	case "good":
@@ -263,8 +306,7 @@ func c09Static(in c09In, a *c09API) string {
 	}
 	hasBody := runtime.HasBody(c09Request(in, "r1"))
 	mt, _, cterr := runtime.ContentType(probe.Header)
-	routeOffers := []string{"application/json"}
-	neg0 := middleware.NegotiateContentType(probe, routeOffers, "")
+	neg0 := middleware.NegotiateContentType(probe, a.routeOffers, "")
 	neg1 := middleware.NegotiateContentType(probe, c09Other, "")
 	auth := "AuthRefused"
 	switch {
@@ -319,90 +361,172 @@ func (c09) Run(inAny any) any {
 	var obs c09Obs
 	a := c09Get(in.Anon, in.Authz != "none")
 	if in.Kind == "conc" {
-		obs.Panicked, obs.Panic = recoverTo(func() { c09RunConc(in, a, &obs) })
+		obs.Panicked, obs.Panic = recoverTo(func() {
+			c09Leaks = nil
+			c09RunConc(in, a, &obs)
+			if len(c09Leaks) > 0 {
+				obs.ConcOK = false
+				obs.ConcBad = append(obs.ConcBad, c09Leaks...)
+			}
+		})
+		return obs
+	}
+	if in.Kind == "multi" {
+		obs.Panicked, obs.Panic = recoverTo(func() { c09RunMulti(in, &obs) })
 		return obs
 	}
 	obs.Panicked, obs.Panic = recoverTo(func() {
 		obs.Static = c09Static(in, a)
 		c09Cnt = c09Counters{}
+		c09Leaks = nil
 		req := c09Request(in, "r1")
-		ctx := a.ctx
 		for _, o := range in.Ops {
 			var st c09Step
-			keep := func(r *http.Request) {
-				st.Same = r == nil || r == req
-				if r != nil {
-					req = r
-				}
-			}
-			switch o {
-			case 0:
-				mr, r, ok := ctx.RouteInfo(req)
-				id := 0
-				if ok {
-					id = 2
-					if strings.HasPrefix(mr.PathPattern, "/items") {
-						id = 1
-					}
-				}
-				st.Res = "RRoute " + c09OptNat(ok, id)
-				keep(r)
-			case 1:
-				mt, _, r, err := ctx.ContentType(req)
-				st.Res = "RCt " + c09OptNat(err == nil, c09MT(mt))
-				keep(r)
-			case 2, 3:
-				offers := []string{"application/json"}
-				if mr := middleware.MatchedRouteFrom(req); mr != nil && o == 2 {
-					offers = mr.Produces
-				}
-				if o == 3 {
-					offers = c09Other
-				}
-				f, r := ctx.ResponseFormat(req, offers)
-				st.Res = "RFmt " + c09OptNat(f != "", c09MT(f))
-				keep(r)
-			case 4:
-				mr := middleware.MatchedRouteFrom(req)
-				if mr == nil {
-					st.Res, st.Same = "RSkipped", true
-					break
-				}
-				p, r, err := ctx.Authorize(req, mr)
-				switch {
-				case err != nil:
-					code := 3
-					if ee, ok := err.(errors.Error); ok && ee.Code() == 403 {
-						code = 4
-					}
-					st.Res = fmt.Sprintf("RAuth %d", code)
-				case r == nil:
-					st.Res = "RAuth 0"
-				case p != nil:
-					st.Res = "RAuth 1"
-				default:
-					st.Res = "RAuth 2"
-				}
-				keep(r)
-			case 5:
-				mr := middleware.MatchedRouteFrom(req)
-				if mr == nil {
-					st.Res, st.Same = "RSkipped", true
-					break
-				}
-				_, r, err := ctx.BindAndValidate(req, mr)
-				st.Res = "RBind " + c09Codes(err)
-				keep(r)
-			case 6:
-				r := ctx.ResetAuth(req)
-				st.Res = "RReset"
-				keep(r)
-			}
+			st, req = c09Op(a, in, "r1", req, o)
 			obs.Steps = append(obs.Steps, st)
 		}
 		obs.Lookups, obs.Authn, obs.Authz, obs.Binds = int(c09Cnt.lookups), int(c09Cnt.authn), int(c09Cnt.authz), int(c09Cnt.binds)
+		obs.OwnOK, obs.Leaks = len(c09Leaks) == 0, c09Leaks
 	})
 	return obs
+}
+
+// c09Op performs one accessor call on the request value req (of request configuration in, id rid) and
+// returns what was observed and the request value the caller continues with.
+func c09Op(a *c09API, in c09In, rid string, req *http.Request, o int) (c09Step, *http.Request) {
+	ctx := a.ctx
+	var st c09Step
+	keep := func(r *http.Request) {
+		st.Same = r == nil || r == req
+		if r != nil {
+			req = r
+		}
+	}
+	switch o {
+	case 0:
+		mr, r, ok := ctx.RouteInfo(req)
+		id := 0
+		if ok {
+			id = 2
+			if strings.HasPrefix(mr.PathPattern, "/items") {
+				id = 1
+				if got := mr.Params.Get("id"); got != rid {
+					c09Leak("RouteInfo: request %s matched with id %q", rid, got)
+				}
+			}
+		}
+		st.Res = "RRoute " + c09OptNat(ok, id)
+		keep(r)
+	case 1:
+		mt, _, r, err := ctx.ContentType(req)
+		st.Res = "RCt " + c09OptNat(err == nil, c09MT(mt))
+		keep(r)
+	case 2, 3:
+		offers := a.routeOffers
+		if mr := middleware.MatchedRouteFrom(req); mr != nil && o == 2 {
+			offers = mr.Produces
+		}
+		if o == 3 {
+			offers = c09Other
+		}
+		f, r := ctx.ResponseFormat(req, offers)
+		st.Res = "RFmt " + c09OptNat(f != "", c09MT(f))
+		keep(r)
+	case 4:
+		mr := middleware.MatchedRouteFrom(req)
+		if mr == nil {
+			st.Res, st.Same = "RSkipped", true
+			break
+		}
+		p, r, err := ctx.Authorize(req, mr)
+		switch {
+		case err != nil:
+			code := 3
+			if ee, ok := err.(errors.Error); ok && ee.Code() == 403 {
+				code = 4
+			}
+			st.Res = fmt.Sprintf("RAuth %d", code)
+		case r == nil:
+			st.Res = "RAuth 0"
+		case p != nil:
+			st.Res = "RAuth 1"
+			if ps, _ := p.(string); ps != "user:good-"+rid {
+				c09Leak("Authorize: request %s got principal %q", rid, ps)
+			}
+		default:
+			st.Res = "RAuth 2"
+		}
+		keep(r)
+	case 5:
+		mr := middleware.MatchedRouteFrom(req)
+		if mr == nil {
+			st.Res, st.Same = "RSkipped", true
+			break
+		}
+		bound, r, err := ctx.BindAndValidate(req, mr)
+		st.Res = "RBind " + c09Codes(err)
+		if m, ok := bound.(map[string]interface{}); ok && in.Target == "items" {
+			if id, present := m["id"]; present && id != rid {
+				c09Leak("BindAndValidate: request %s bound id %v", rid, id)
+			}
+			if b, ok := m["body"].(map[string]interface{}); ok && b["rid"] != nil && b["rid"] != rid {
+				c09Leak("BindAndValidate: request %s bound body of %v", rid, b["rid"])
+			}
+		}
+		keep(r)
+	case 6:
+		r := ctx.ResetAuth(req)
+		st.Res = "RReset"
+		keep(r)
+	case 7:
+		// a fresh copy of this request is served by the whole handler; nothing is threaded back
+		atomic.StoreInt64(&c09Quiet, 1)
+		a.handler.ServeHTTP(httptest.NewRecorder(), c09Request(in, rid))
+		atomic.StoreInt64(&c09Quiet, 0)
+		st.Res, st.Same = "RServed", true
+	}
+	return st, req
+}
+
+func c09RunMulti(in c09In, obs *c09Obs) {
+	a := c09Get(in.Anon, in.Authz != "none")
+	c09Leaks = nil
+	reqs := make([]*http.Request, len(in.Reqs))
+	obs.Multi = make([][]c09Step, len(in.Reqs))
+	for i, ri := range in.Reqs {
+		ri.Anon, ri.Authz = in.Anon, in.Authz
+		in.Reqs[i] = ri
+		rid := fmt.Sprintf("m%d", i)
+		reqs[i] = c09Request(ri, rid)
+		obs.Statics = append(obs.Statics, c09Static(ri, a))
+	}
+	for _, e := range in.Sched {
+		i, o := e[0], e[1]
+		var st c09Step
+		st, reqs[i] = c09Op(a, in.Reqs[i], fmt.Sprintf("m%d", i), reqs[i], o)
+		obs.Multi[i] = append(obs.Multi[i], st)
+	}
+	// each request's calls alone, on a fresh handler instance: what it observes must be the same
+	obs.SoloOK = true
+	for i, ri := range in.Reqs {
+		fresh := c09Build(in.Anon, in.Authz != "none")
+		rid := fmt.Sprintf("m%d", i)
+		req := c09Request(ri, rid)
+		var solo []c09Step
+		for _, e := range in.Sched {
+			if e[0] == i {
+				var st c09Step
+				st, req = c09Op(fresh, ri, rid, req, e[1])
+				solo = append(solo, st)
+			}
+		}
+		if fmt.Sprint(solo) != fmt.Sprint(obs.Multi[i]) {
+			obs.SoloOK = false
+			obs.Leaks = append(obs.Leaks, fmt.Sprintf("request %s interleaved: %v; alone on a fresh handler: %v", rid, obs.Multi[i], solo))
+		}
+	}
+	obs.OwnOK = len(c09Leaks) == 0
+	obs.Leaks = append(obs.Leaks, c09Leaks...)
 }
 
 func c09RunConc(in c09In, a *c09API, obs *c09Obs) {
@@ -418,19 +542,20 @@ func c09RunConc(in c09In, a *c09API, obs *c09Obs) {
 		j.Key = []string{"good", "good", "bad", "absent"}[r.Intn(4)]
 		j.Body = []string{"valid", "valid", "invalid", "none"}[r.Intn(4)]
 		j.CT = []string{"json", "json", "jsoncs", "text", "absent"}[r.Intn(5)]
-		j.Accept = []string{"json", "absent", "png", "any"}[r.Intn(4)]
+		j.Accept = []string{"json", "absent", "png", "any", "star"}[r.Intn(5)]
 		jobs = append(jobs, job{j, fmt.Sprintf("r%d", i)})
 	}
 	// reference: every request served alone, one after the other
 	type ref struct {
 		code int
 		body string
+		ct   string
 	}
 	refs := make([]ref, len(jobs))
 	for i, jb := range jobs {
 		rec := httptest.NewRecorder()
 		a.handler.ServeHTTP(rec, c09Request(jb.in, jb.rid))
-		refs[i] = ref{rec.Code, rec.Body.String()}
+		refs[i] = ref{rec.Code, rec.Body.String(), rec.Header().Get("Content-Type")}
 	}
 	var wg sync.WaitGroup
 	var mu sync.Mutex
@@ -447,7 +572,7 @@ func c09RunConc(in c09In, a *c09API, obs *c09Obs) {
 				req := c09Request(jb.in, jb.rid)
 				rec := httptest.NewRecorder()
 				a.handler.ServeHTTP(rec, req)
-				ok := rec.Code == refs[i].code && rec.Body.String() == refs[i].body
+				ok := rec.Code == refs[i].code && rec.Body.String() == refs[i].body && rec.Header().Get("Content-Type") == refs[i].ct
 				if ok && rec.Code == 200 && jb.in.Target == "items" && jb.in.Body == "valid" {
 					// and the values are this request's own
 					var m map[string]interface{}
@@ -480,15 +605,24 @@ func (c09) Coq(inAny any, obsAny any) string {
 	if in.Kind == "conc" {
 		return fmt.Sprintf("CConc %d %s %s", in.N, coqBool(obs.Panicked), coqBool(obs.ConcOK))
 	}
-	ops := coqList(in.Ops, func(o int) string {
-		return []string{"RouteInfo", "ContentType", "(ResponseFormat 0)", "(ResponseFormat 1)", "Authorize", "BindAndValidate", "ResetAuth"}[o]
-	})
+	opName := func(o int) string {
+		return []string{"RouteInfo", "ContentType", "(ResponseFormat 0)", "(ResponseFormat 1)", "Authorize", "BindAndValidate", "ResetAuth", "ServeFresh"}[o]
+	}
+	stepsOf := func(xs []c09Step) string {
+		return coqList(xs, func(s c09Step) string { return "(" + s.Res + ", " + coqBool(s.Same) + ")" })
+	}
+	if in.Kind == "multi" {
+		sched := coqList(in.Sched, func(e [2]int) string { return fmt.Sprintf("(%d, %s)", e[0], opName(e[1])) })
+		return fmt.Sprintf("CMulti %s %s %s %s %s", coqList(obs.Statics, func(x string) string { return x }), sched,
+			coqBool(obs.Panicked), coqList(obs.Multi, stepsOf), coqBool(obs.OwnOK && obs.SoloOK))
+	}
+	ops := coqList(in.Ops, opName)
 	steps := coqList(obs.Steps, func(s c09Step) string { return "(" + s.Res + ", " + coqBool(s.Same) + ")" })
 	static := obs.Static
 	if static == "" {
 		static = "(mkstatic None false false None false false (fun _ => None) 0 true AuthRefused None false)"
 	}
-	return fmt.Sprintf("CSeq %s %s %s %s %d %d %d %d", static, ops, coqBool(obs.Panicked), steps, obs.Lookups, obs.Authn, obs.Authz, obs.Binds)
+	return fmt.Sprintf("CSeq %s %s %s %s %d %d %d %d %s", static, ops, coqBool(obs.Panicked), steps, obs.Lookups, obs.Authn, obs.Authz, obs.Binds, coqBool(obs.OwnOK))
 }
 
 func (c09) Classify(inAny any, obsAny any) []string { return nil }
@@ -505,6 +639,9 @@ func (c09) Category(inAny any, obsAny any) (string, bool) {
 			return 999
 		}()), true
 	}
+	if in.Kind == "multi" {
+		return fmt.Sprintf("multi/%d-requests", len(in.Reqs)), true
+	}
 	seen := map[int]bool{}
 	rep := false
 	for _, o := range in.Ops {
@@ -520,7 +657,7 @@ var c09Vals = map[string][]string{
 	"target": {"items", "items", "items", "open", "missing"},
 	"ct":     {"json", "json", "jsoncs", "text", "malformed", "absent"},
 	"body":   {"valid", "valid", "invalid", "none"},
-	"accept": {"json", "absent", "png", "any"},
+	"accept": {"json", "absent", "png", "any", "star", "star"},
 	"key":    {"good", "good", "bad", "absent"},
 	"authz":  {"none", "accept", "deny"},
 }
@@ -532,6 +669,20 @@ func (c09) Gen(r *rand.Rand, tier string, i int) any {
 		n := []int{2, 3, 4, 8, 16, 32, 64}[r.Intn(7)]
 		return c09In{Kind: "conc", Anon: r.Intn(2) == 0, Authz: []string{"none", "accept"}[r.Intn(2)], N: n, ConcSeed: r.Int63()}
 	}
+	if i%5 == 4 {
+		m := c09In{Kind: "multi", Anon: r.Intn(2) == 0, Authz: c09Pick(r, "authz")}
+		nreq := 2 + r.Intn(2)
+		for j := 0; j < nreq; j++ {
+			q := c09In{Kind: "seq", Target: []string{"items", "items", "items", "open"}[r.Intn(4)], CT: c09Pick(r, "ct"), Body: c09Pick(r, "body"),
+				Accept: c09Pick(r, "accept"), Key: c09Pick(r, "key")}
+			m.Reqs = append(m.Reqs, q)
+			m.Sched = append(m.Sched, [2]int{j, 0})
+		}
+		for k := 4 + r.Intn(14); k > 0; k-- {
+			m.Sched = append(m.Sched, [2]int{r.Intn(nreq), r.Intn(8)})
+		}
+		return m
+	}
 	in := c09In{Kind: "seq", Anon: r.Intn(2) == 0, Authz: c09Pick(r, "authz"), Target: c09Pick(r, "target"), CT: c09Pick(r, "ct"),
 		Body: c09Pick(r, "body"), Accept: c09Pick(r, "accept"), Key: c09Pick(r, "key")}
 	n := 1 + r.Intn(14)
@@ -539,7 +690,7 @@ func (c09) Gen(r *rand.Rand, tier string, i int) any {
 		in.Ops = append(in.Ops, 0) // most histories start by matching the route, as the pipeline does
 	}
 	for len(in.Ops) < n {
-		in.Ops = append(in.Ops, r.Intn(7))
+		in.Ops = append(in.Ops, r.Intn(8))
 	}
 	return in
 }
